@@ -11,6 +11,7 @@ import RosedVerif.Spec.WrapLemmas
 import RosedVerif.Model.WrapRefine
 import RosedVerif.Model.WrapFits
 import RosedVerif.Model.BridgeWrap
+import RosedVerif.Model.BridgeOps
 namespace RosedVerif.Props
 open RosedVerif RosedVerif.Spec
 
@@ -101,6 +102,38 @@ theorem C06_code_points_needs_spTail :
 example : VocabStable BridgeWrap.demoVocab2 = true ∧ [0x20] ∈ BridgeWrap.demoVocab2 ∧
     [0x2D] ∈ BridgeWrap.demoVocab2 ∧ ∀ t ∈ BridgeWrap.demoVocab2, (0x20 : Int) ∉ t.tail :=
   ⟨BridgeWrap.demoVocab2_stable, by decide, by decide, BridgeWrap.demoVocab2_spTail⟩
+
+/-- **the public operation on code points**: `Edit(text).Wrap(w)` with default options, `text` any
+concatenation of clusters of a stable vocabulary (space, hyphen included; U+0020 and U+000A in no
+other cluster) that is empty or has a non-whitespace cluster.  The model of Editor.WrapOpts — line
+separator pre-pass, CollapseSpace, the wrap loop, Block.Join, trailing-separator rule — run on
+the CODE POINTS with the real segmentation returns a text whose lines (split at U+000A), each
+re-segmented, are exactly the greedy specification's lines on the clusters, followed by one empty
+line exactly when the input ended with the separator ("ends with a line separator exactly when
+the input did"). -/
+theorem C06_wrap_default_code_points {V : List (List Int)} (hV : VocabStable V = true)
+    (hsp : [0x20] ∈ V) (hhy : [0x2D] ∈ V)
+    (hspTail : ∀ t ∈ V, (0x20 : Int) ∉ t.tail) (hnl : ∀ t ∈ V, (0x0A : Int) ∈ t → t = [0x0A])
+    (toks : List (List Int)) (ht : ∀ t ∈ toks, t ∈ V) (w : Int)
+    (hne : toks = [] ∨ ∃ t ∈ toks, cxB.isSpace t = false) :
+    ∃ e, Editor.wrapOpts cxA (.root toks.flatten {}) w {} = .ok e ∧
+      (splitOn e.text [0x0A]).map (clusters cxA) =
+        Spec.wrapLines ⟨cxB.isSpace, cxB.sp, cxB.hy⟩ (max w 2).toNat
+            (replaceAll' cxB toks [[0x0A]]) ++
+          (if ([[0x0A]] : List (List Int)).isSuffixOf toks then [[]] else []) :=
+  wrapOpts_default_bridge_lines' hV hsp hhy hspTail hnl toks ht w hne
+
+/-- the same bridge for ANY options in non-paragraph mode and any editor (sub-editors included),
+as an equation between the two instances of the model: the code-point run is the flattening of
+the cluster run.  `GoodSep` (decidable-in-practice side condition on the line separator: single
+rune, single multi-rune cluster such as CR LF, or a list of marker clusters such as "\n\n") says
+the separator cannot be found across cluster boundaries. -/
+theorem C06_wrapOpts_code_points {V : List (List Int)} (hV : VocabStable V = true) (hsp : [0x20] ∈ V)
+    (hspTail : ∀ t ∈ V, (0x20 : Int) ∉ t.tail)
+    (ed : Editor (List Int)) (ht : ∀ t ∈ ed.text, t ∈ V) (w : Int) (o' : Options (List Int))
+    (hpp : o'.preservePara = false) (hS : BridgeOps.GoodSep V (o'.withDefaults cxB).lineSep) :
+    Editor.wrapOpts cxA ed.flat w o'.flat = (Editor.wrapOpts cxB ed w o').map Editor.flat :=
+  BridgeOps.wrapOpts_bridge_good hV hsp hspTail ed ht w o' hpp hS
 
 /-! non-vacuity -/
 example : Spec.wrapLines ⟨(· == 0), 0, 99⟩ 5 [1, 2, 3, 0, 4, 5, 6, 7, 8, 9, 0, 1] =
